@@ -37,6 +37,15 @@ RedMode(r, a, cap) == IF RedecodeRule(r, a) = "captured" THEN cap ELSE "der"
 CapImpliesRed == \A r \in Regions : \A a \in Accessors(r) : \A cap \in CaptureModes(r) : \A sh \in Shapes :
                     Accepts(cap, sh) => Accepts(RedMode(r, a, cap), sh)
 
+\* ------------------------------------------- 1b. whole-value conversions of a decoded certificate
+\* A certificate says, per resource family, nothing / "inherit" / blocks.  The conversions that turn a decoded certificate into
+\* one value (ResourceSet::try_from) are partial by design: they refuse when anything is inherited.  "Partial" must mean an
+\* error, for EVERY combination of the three families - the contract automaton's "no panic" on a domain small enough to list.
+Choices == {"missing", "inherit", "blocks"}
+CertShapes == [v4 : Choices, v6 : Choices, asn : Choices]
+ConvertsTo(sh) == IF "inherit" \in {sh.v4, sh.v6, sh.asn} THEN "err" ELSE "ok"
+ConversionTotal == \A sh \in CertShapes : ConvertsTo(sh) \in {"ok", "err"}
+
 \* ---------------------------------------------------------------- 2. plans
 Entries == {"cert", "crl", "manifest", "roa", "aspa", "rta", "tal", "pubkey", "csr", "idcert", "sigmsg"}
 HasRelaxed == {"manifest", "roa", "aspa", "rta", "sigmsg"}          \* entry points with a strict flag
